@@ -157,15 +157,38 @@ func runC11(c *core.Ctx) error {
 		return err
 	}
 	nAll := len(sites)
+	// the packages that read the document directly are covered for every operand type; the generator
+	// proper (gen, gen/ir, …) for text operands
+	inputFacing := map[string]bool{pkgOpenAPI: true, pkgParser: true, pkgJS: true, pkgLoc: true, pkgRoot: true}
 	panicob.Discharge(c, r2, sites, panicob.Options{Table: table, Filter: func(s *panicob.Site) bool {
+		if inputFacing[s.Pkg.PkgPath] {
+			return true
+		}
 		if s.Operand != nil {
 			return isTextType(s.Operand)
 		}
 		return false
 	}})
+	// uri.NormalizeEscapedPath is applied to spec path keys (C11 anchor uri/normalize.go)
+	if uriPkgs, err := c.Load("./uri"); err == nil {
+		usites, err := panicob.Bounds(c, []*packages.Package{findPkg(uriPkgs, pkgURI)})
+		if err == nil {
+			panicob.Discharge(c, r2, usites, panicob.Options{Table: table, Filter: func(s *panicob.Site) bool {
+				return strings.HasSuffix(s.Pos.Filename, "normalize.go")
+			}})
+		}
+	}
 	r2.Note("unproven bounds checks in scope packages: %d, of which on text operands: %d (the others index slices of IR / AST objects and are out of scope)", nAll, r2.Obligations)
 
 	checkNilResults(c, r3, prog)
+	r4 := c.NewRule("R11.4", "S1", "recursion over schema / IR graphs carries a visited set or depth bound", 5)
+	recExempt := map[string]string{}
+	for _, e := range table.Entries {
+		if strings.HasPrefix(e.Key, "recursion:") {
+			recExempt[e.Key] = e.Reason
+		}
+	}
+	checkGuardedRecursion(c, r4, prog, recExempt)
 	return nil
 }
 
@@ -400,4 +423,248 @@ func firstUnguardedDeref(v ssa.Value) ssa.Instruction {
 		return nil
 	}
 	return visit(v)
+}
+
+// ---------------------------------------------------------------------------
+// R11.4 recursion over cyclic graphs is guarded
+
+func resolveCallee(call ssa.CallInstruction) *ssa.Function {
+	cc := call.Common()
+	if f := cc.StaticCallee(); f != nil {
+		return f
+	}
+	if cc.IsInvoke() {
+		return nil
+	}
+	return resolveFnVal(cc.Value, 0)
+}
+
+func resolveFnVal(v ssa.Value, depth int) *ssa.Function {
+	if depth > 6 {
+		return nil
+	}
+	switch x := v.(type) {
+	case *ssa.Function:
+		return x
+	case *ssa.MakeClosure:
+		f, _ := x.Fn.(*ssa.Function)
+		return f
+	case *ssa.UnOp:
+		if x.Op != token.MUL {
+			return nil
+		}
+		switch a := x.X.(type) {
+		case *ssa.Alloc:
+			return storedFn(a, depth)
+		case *ssa.FreeVar:
+			// binding in the parent
+			fn := a.Parent()
+			p := fn.Parent()
+			if p == nil {
+				return nil
+			}
+			for _, b := range p.Blocks {
+				for _, in := range b.Instrs {
+					if mc, ok := in.(*ssa.MakeClosure); ok && mc.Fn == fn {
+						for i, fv := range fn.FreeVars {
+							if fv == a && i < len(mc.Bindings) {
+								switch bnd := mc.Bindings[i].(type) {
+								case *ssa.Alloc:
+									return storedFn(bnd, depth)
+								case *ssa.FreeVar:
+									return resolveFnVal(&ssa.UnOp{Op: token.MUL, X: bnd}, depth+1)
+								}
+							}
+						}
+					}
+				}
+			}
+		}
+	}
+	return nil
+}
+
+func storedFn(a *ssa.Alloc, depth int) *ssa.Function {
+	var out *ssa.Function
+	n := 0
+	for _, ref := range *a.Referrers() {
+		if st, ok := ref.(*ssa.Store); ok && st.Addr == ssa.Value(a) {
+			if f := resolveFnVal(st.Val, depth+1); f != nil {
+				out = f
+				n++
+			}
+		}
+	}
+	if n >= 1 {
+		return out
+	}
+	return nil
+}
+
+func hasCyclicParam(fn *ssa.Function) string {
+	check := func(t types.Type) string {
+		if sl, ok := t.Underlying().(*types.Slice); ok {
+			t = sl.Elem()
+		}
+		p, n := core.NamedOf(t)
+		if _, isPtr := t.Underlying().(*types.Pointer); !isPtr {
+			return ""
+		}
+		switch {
+		case p == pkgJS && n == "Schema":
+			return "*jsonschema.Schema"
+		case p == pkgIR && n == "Type":
+			return "*ir.Type"
+		}
+		return ""
+	}
+	for _, p := range fn.Params {
+		if s := check(p.Type()); s != "" {
+			return s
+		}
+	}
+	return ""
+}
+
+// checkGuardedRecursion implements R11.4.
+func checkGuardedRecursion(c *core.Ctx, r *core.Rule, prog *core.Prog, exempt map[string]string) {
+	var fns []*ssa.Function
+	for _, p := range []string{pkgParser, pkgGen, pkgJS, pkgIR} {
+		if sp := prog.ByPath[p]; sp != nil {
+			fns = append(fns, core.PkgFuncs(prog.SSA, sp)...)
+		}
+	}
+	idx := map[*ssa.Function]int{}
+	for i, f := range fns {
+		idx[f] = i
+	}
+	adj := make([][]int, len(fns))
+	for i, f := range fns {
+		for _, call := range core.Calls(f) {
+			if g := resolveCallee(call); g != nil {
+				if j, ok := idx[g]; ok {
+					adj[i] = append(adj[i], j)
+				}
+			}
+			// function values passed as arguments (slices.ContainsFunc(x, func…)) may be called back
+			for _, a := range call.Common().Args {
+				if g := resolveFnVal(a, 0); g != nil {
+					if j, ok := idx[g]; ok {
+						adj[i] = append(adj[i], j)
+					}
+				}
+			}
+		}
+	}
+	// Tarjan
+	index, low, on := make([]int, len(fns)), make([]int, len(fns)), make([]bool, len(fns))
+	for i := range index {
+		index[i] = -1
+	}
+	var stack []int
+	var sccs [][]int
+	counter := 0
+	var strong func(v int)
+	strong = func(v int) {
+		index[v], low[v] = counter, counter
+		counter++
+		stack = append(stack, v)
+		on[v] = true
+		for _, w := range adj[v] {
+			if index[w] < 0 {
+				strong(w)
+				if low[w] < low[v] {
+					low[v] = low[w]
+				}
+			} else if on[w] && index[w] < low[v] {
+				low[v] = index[w]
+			}
+		}
+		if low[v] == index[v] {
+			var comp []int
+			for {
+				w := stack[len(stack)-1]
+				stack = stack[:len(stack)-1]
+				on[w] = false
+				comp = append(comp, w)
+				if w == v {
+					break
+				}
+			}
+			sccs = append(sccs, comp)
+		}
+	}
+	for i := range fns {
+		if index[i] < 0 {
+			strong(i)
+		}
+	}
+	for _, comp := range sccs {
+		self := false
+		if len(comp) == 1 {
+			for _, w := range adj[comp[0]] {
+				if w == comp[0] {
+					self = true
+				}
+			}
+			if !self {
+				continue
+			}
+		}
+		kind := ""
+		var names []string
+		for _, i := range comp {
+			if k := hasCyclicParam(fns[i]); k != "" {
+				kind = k
+			}
+			names = append(names, fnKey(fns[i])+closureSuffix(fns[i]))
+		}
+		if kind == "" {
+			continue
+		}
+		sort.Strings(names)
+		key := "recursion:" + strings.Join(names, "+")
+		// guard: a comma-ok lookup / membership in a map keyed by a pointer (visited set), or a depth comparison
+		guarded := ""
+		for _, i := range comp {
+			for _, b := range fns[i].Blocks {
+				for _, in := range b.Instrs {
+					switch x := in.(type) {
+					case *ssa.Lookup:
+						if mt, ok := x.X.Type().Underlying().(*types.Map); ok && x.CommaOk {
+							if _, isPtr := mt.Key().Underlying().(*types.Pointer); isPtr {
+								guarded = "visited set keyed by pointer"
+							}
+							if _, isStruct := mt.Key().Underlying().(*types.Struct); isStruct {
+								guarded = "visited set keyed by reference"
+							}
+							if at, isArr := mt.Key().Underlying().(*types.Array); isArr {
+								if _, isPtr := at.Elem().Underlying().(*types.Pointer); isPtr {
+									guarded = "visited set keyed by a pair of pointers"
+								}
+							}
+						}
+					case *ssa.BinOp:
+						if (x.Op == token.GTR || x.Op == token.GEQ || x.Op == token.LSS || x.Op == token.LEQ) && (isFieldLoad(x.X, "depthCount") || isFieldLoad(x.X, "depthLimit") || isFieldLoad(x.Y, "depthLimit")) {
+							guarded = "depth counter"
+						}
+					case *ssa.Call:
+						if cal := x.Common().StaticCallee(); cal != nil && (cal.Name() == "has" || cal.Name() == "AddKey") {
+							guarded = "path/ref set (" + cal.Name() + ")"
+						}
+					}
+				}
+			}
+		}
+		pos := c.Pos(fns[comp[0]].Pos())
+		switch {
+		case guarded != "":
+			r.Pass(fmt.Sprintf("%s over %s: guarded by a %s", key, kind, guarded))
+		case exempt[key] != "":
+			r.Justified++
+			r.Pass(fmt.Sprintf("%s over %s: reviewed: %s", key, kind, exempt[key]))
+		default:
+			r.Fail(key, pos, fmt.Sprintf("recursion over %s (a graph that $ref makes cyclic) without a visited set or depth bound: a self-referential schema overflows the stack", kind))
+		}
+	}
 }
